@@ -43,7 +43,17 @@ def span_coords(iv):
 def lattice(name):
     """-> list of (kwargs(JSON-safe), coords) ; q is at least as strict as p iff coords_q >= coords_p componentwise."""
     L = []
-    if name == "gross_range_test":
+    if name == "flat_line_test:long":   # durations of 1 .. 100 sampling steps (long records only)
+        for s in (6000, 3900, 3600, 600, 60):
+            for f in (6000, 3900, 600):
+                for tol in (0.5, 2):
+                    L.append((dict(suspect_threshold=s, fail_threshold=f, tolerance=tol), (-s, -f, tol)))
+    elif name == "attenuated_signal_test:long":
+        for mode in (dict(), dict(test_period=600, min_obs=3), dict(test_period=7200, check_type="range")):
+            for s in (0.25, 1.25, 10):
+                for f in (0.25, 1.25, 10):
+                    L.append((dict(suspect_threshold=s, fail_threshold=f, **mode), (s, f), tuple(sorted(mode.items()))))
+    elif name == "gross_range_test":
         for f in nest_intervals((0, 1, 2, 3)):
             for s in [None] + [iv for iv in nest_intervals((0, 1, 2, 3)) if f[0] <= iv[0] and iv[1] <= f[1]]:
                 kw = dict(fail_span=list(f))
@@ -182,6 +192,53 @@ def spaces(name, tier):
                     yield dict(x=list(x), z=zz)
 
 
+def plateaus(n, ks):
+    from .c11 import plateaus as p11
+
+    return p11(n, ks)
+
+
+def long_spaces(name):
+    """a few very long records per test (size-keyed code paths: chunking, fast paths)"""
+    N = 3000
+    if name in ("gross_range_test", "valid_range_test"):
+        vals = (-1.0, 0.0, 0.5, 1.0, 1.5, 2.0, 2.5, 3.0, 4.0, NAN)
+        x = alpha.xl(vals, N, 2)
+        yield dict(x=list(x))
+        yield dict(x=sorted(v for v in x if v != NAN))
+    elif name == "climatology_test":
+        xs = (4.0, 10.0, 12.0, 14.0, 15.0, 16.0, 18.0, 20.0, 22.0, 26.0, 85.0, 95.0, NAN)
+        x = alpha.xl(xs, N, 2)
+        yield dict(x=list(x), secs=[alpha.T0 + 3 * 3600 * i for i in range(N)], z=[5.0] * N)
+    elif name == "spike_test":
+        yield dict(x=list(alpha.xl((0.0, 1.0, 3.0, 4.0, NAN), N, 3)))
+    elif name == "rate_of_change_test":
+        x = alpha.xl((0.0, 1.0, 3.0, NAN), N, 3)
+        yield dict(x=list(x), secs=alpha.times_from_gaps([(1, 2, 60, 1, 2)[i % 5] for i in range(N - 1)]))
+    elif name in ("speed_test", "location_test"):
+        pos = ((0.0, 0.0), (1.0, 0.0), (0.0, 6.0), (11.0, 0.0), (NAN, 0.0), (NAN, NAN))
+        tr = alpha.xl(pos, 1300, 2)
+        yield dict(lon=[p[0] for p in tr], lat=[p[1] for p in tr], secs=alpha.regular_secs(len(tr), 3600))
+    elif name == "flat_line_test":
+        x = alpha.xl((0.0, 1.0, 3.0, NAN), N, 4)
+        yield dict(x=list(x), secs=alpha.regular_secs(N, 60))
+        px = plateaus(N, [1, 2, 5, 10, 60, 65, 100])
+        gappy = alpha.times_from_gaps([7000 if (i % 211) == 210 else 60 for i in range(N - 1)])
+        for secs in (alpha.regular_secs(N, 60), gappy):
+            yield dict(x=list(px), secs=secs)
+            yield dict(x=list(px), secs=secs, lattice="long")
+        wob = [v if v == NAN else v + 0.3 * ((i * 7) % 5) for i, v in enumerate(x)]   # lively data
+        yield dict(x=wob, secs=gappy, lattice="long")
+    elif name == "attenuated_signal_test":
+        x = alpha.xl((0.0, 1.0, 3.0, NAN), N, 3)
+        yield dict(x=list(x), secs=alpha.regular_secs(N, 60), lattice="long")
+        yield dict(x=list(x), secs=alpha.times_from_gaps([1 if (i % 97) < 25 else 60 for i in range(N - 1)]), lattice="long")
+    elif name == "density_inversion_test":
+        x = alpha.xl((0.0, 1.0, 2.0, NAN), N, 3)
+        yield dict(x=list(x), z=[10.0 + i for i in range(N)])
+        yield dict(x=list(x), z=[10.0 + (i if i < N // 2 else N - i) for i in range(N)])
+
+
 TESTS = ["gross_range_test", "valid_range_test", "climatology_test", "spike_test", "rate_of_change_test", "speed_test",
          "location_test", "flat_line_test", "attenuated_signal_test", "density_inversion_test"]
 _LAT = {}
@@ -194,6 +251,7 @@ def lat(name):
 
 
 def run_point(name, kwj, logical):
+    name = name.split(":")[0]
     spec = G.SPECS[name]
     if spec["kind"] == "position":
         n = len(logical["lon"])
@@ -224,7 +282,7 @@ def compare(loose, strict):
 
 def check_logical(name, logical, acc=None):
     """Execute the whole lattice on one series and compare every comparable pair."""
-    L = lat(name)
+    L = lat(name + (":" + logical["lattice"] if logical.get("lattice") else ""))
     res = []
     vs = []
     for kwj, coords, group in L:
@@ -283,7 +341,7 @@ def tasks(tier):
 
 def run_task(task, acc):
     name, c, nchunks, tier = task
-    for k, logical in enumerate(spaces(name, tier)):
+    for k, logical in enumerate(itertools.chain(long_spaces(name), spaces(name, tier))):
         if k % nchunks != c:
             continue
         vs, npoints, npairs, ndiff, res = check_logical(name, logical)
